@@ -33,6 +33,10 @@ checks = [
   "explicit-state BFS over the real R-tree; in every reachable state all (query point, k) nearest-neighbour queries vs brute-force k smallest distances",
   "Same reachable state sets as C11; in every non-empty state NearestNeighbor and NearestNeighbors(k) for all grid query points and all k=1..size+1 are compared by distance with a brute-force scan of the model multiset.",
   "Same trusted base as C11; ties compared by distance (1e-12), not identity.", "4/C11-C12"),
+ ("C18", MC, "E3",
+  "stateless model checking of the source-instrumented encoding/osm package under a controlled cooperative scheduler: DFS over all schedules within a preemption / deviation bound, each execution compared with a sequential least-fixpoint model",
+  "Every schedule of the real extract() worker pool with at most 1 (quick) / 2 (thorough) preemptions, respectively 2 / 3 deviations from the canonical scheduler, on every small document order (sequential tier, all element orders) and on ten sharp documents with 2 and 3 workers x three keep functions is executed and must yield exactly the least fixpoint and pass Check; Filter is explored over map-iteration orders. Complete within those bounds; larger documents, more workers and more preemptions are outside.",
+  "Trusts the shim's model of Mutex/RWMutex (writer preference)/buffered channel/errgroup (mc/vrt) and the 1:1 rewrite by instr/; the free-running package's outcome must be among the explored outcomes; data races below lock granularity are not modelled.", "3"),
 ]
 not_applicable = [
 ]
